@@ -1074,8 +1074,16 @@ def parse_and_group(src_paths, group_by=default_group_keys, extractor=None,
             warnings.warn("Skipping non-image data set: %s" % dcm_path)
             continue
 
-        #Extract the meta data and group
-        meta = extractor(dcm)
+        #Extract the meta data and group. Elements are parsed lazily so a
+        #damaged file may only fail here, treat that like a read error
+        try:
+            meta = extractor(dcm)
+        except Exception as e:
+            if warn_on_except:
+                warnings.warn('Error reading file %s: %s' % (dcm_path, str(e)))
+                continue
+            else:
+                raise
         key_list = [] # Values from group_by elems with equality testing
         close_list = [] # Values from group_by elems with np.allclose testing
         for grp_key in group_by:
